@@ -143,7 +143,7 @@ def stream_e2e(ctx, n, pages_per=6):
                                        ['--http-compression'], ['--restrict-file-names', 'windows,lower'], ['--server-response'], ['--progress', 'dot'],
                                        ['--progress', 'bar'], ['--ascii-print'],
                                        # requests that carry a body (a 307 / 308 answer asks for the same request again)
-                                       ['--post-data', 'a=1&b=2'], ['--post-data', 'a=1&b=2'], ['--method', 'PUT', '--body-data', 'x' * 5000], ['--post-data', '']])
+                                       ['--post-data', 'a=1&b=2'], ['--post-data', 'a=1&b=2'], ['--post-data', 'x=' + 'y' * 5000], ['--post-data', '']])
         args.append((gen_pages(rng, pages_per), rng.randrange(1 << 30), rng.choice([1, 2]), opt))
     with cf.ProcessPoolExecutor(max_workers=min(ctx.jobs, max(1, len(args))), mp_context=mp.get_context('fork')) as ex:
         results = list(ex.map(e2e_worker, args, chunksize=2))
